@@ -392,4 +392,52 @@ example : (Msg.hello 3 ⟨60000, 16384, 524288, 128⟩).WF := by
 example : decode (encode (.openPort 5 true (some 6))) = .ok (.openPort 5 true (some 6)) := by
   rfl
 
+/-! ### an accepted Hello respects the protocol minimums
+
+`ExchangedCfg::read` refuses a chunk size or a port receive buffer below 4 bytes and an empty connect queue.  The
+flow-control theorems assume these minimums (`ports_frame_nonempty`, `emit_progress` need `4 ≤ chunk`: with a smaller
+chunk size `Sender::connect` computes a batch of zero ports and never finishes — seeded change C08-m4). -/
+theorem decCfg_minimums (bs : Bytes) (c : XCfg) (h : decCfg bs = .ok c) :
+    4 ≤ c.chunk ∧ 4 ≤ c.buf ∧ 1 ≤ c.cq := by
+  unfold decCfg at h
+  repeat' split at h
+  all_goals first
+    | (injection h with h; subst h; simp only; omega)
+    | cases h
+
+theorem decoded_hello_minimums (bs : Bytes) (v : Nat) (c : XCfg) (h : decode bs = .ok (.hello v c)) :
+    4 ≤ c.chunk ∧ 4 ≤ c.buf ∧ 1 ≤ c.cq := by
+  cases bs with
+  | nil => simp [decode] at h
+  | cons code rest =>
+    simp only [decode] at h
+    generalize code.toNat = n at h
+    -- only code 2 produces a Hello
+    by_cases h2 : n = 2
+    · subst h2
+      simp only [decodeBody] at h
+      repeat' split at h
+      all_goals first
+        | (cases h; done)
+        | (cases h; exact decCfg_minimums _ _ ‹_›)
+    · exfalso
+      unfold decodeBody at h
+      repeat' split at h
+      all_goals first
+        | exact h2 rfl
+        | cases h
+        | (injection h with h; cases h)
+        | (simp only [rdPort] at h
+           repeat' split at h
+           all_goals first
+             | cases h
+             | (injection h with h; cases h))
+
+/-- the premises are met, and the bound is sharp: a Hello announcing chunk size 4 is accepted, the same frame with
+chunk size 3 is refused -/
+example : decode [0x02, 0x43, 0x48, 0x4d, 0x55, 0x58, 0x00, 0x03, 1, 0, 0, 0, 0, 0, 0, 0, 4, 0, 0, 0, 4, 0, 0, 0, 1, 0] =
+    .ok (.hello 3 { timeoutMs := 1, chunk := 4, buf := 4, cq := 1 }) := by rfl
+example : decode [0x02, 0x43, 0x48, 0x4d, 0x55, 0x58, 0x00, 0x03, 1, 0, 0, 0, 0, 0, 0, 0, 3, 0, 0, 0, 4, 0, 0, 0, 1, 0] =
+    .error .invalid := by rfl
+
 end Remoc.Wire
